@@ -66,6 +66,16 @@ def resumed(sess, suite, what, direct, step, state, rest, fmt, replay):
             sess.count("format:" + f2)
 
 
+def restore_prim(sess, suite, t, h, what):
+    """a fixed-size value saved with its serialize() and read back with its deserialize(): must be the same value"""
+    req = "prim %s t=%s b=%s" % (suite, t, h)
+    r = sess.call(req, EXACT, "restore:" + t)
+    sess.oracle(r.ok and r["re"] == h, "%s: a %s saved with serialize() does not come back from deserialize() as the same value (%s)" % (what, t, r.raw[:70]), [req])
+    sess.case("prim|" + req, nontrivial=True)
+    sess.count("boundary:" + what)
+    return r["re"] if r.ok else h
+
+
 def protocol_runs(sess, suite, n, t, fmts):
     rng = sess.rng
     fld = Fld(suite)
@@ -153,8 +163,10 @@ def protocol_runs(sess, suite, n, t, fmts):
         if len(deltas) == len(helpers):
             sigmas = []
             for h in helpers:
-                s2 = sess.call("repair2 %s deltas=%s" % (suite, ",".join(deltas[g][h] for g in helpers)), EXACT, "repair2")
-                sigmas.append(s2["sigma"])
+                # each helper stores the deltas it received, and later its sigma, between the parts
+                got = [restore_prim(sess, suite, "delta", deltas[g][h], "repair part1 -> part2 (stored delta)") for g in helpers]
+                s2 = sess.call("repair2 %s deltas=%s" % (suite, ",".join(got)), EXACT, "repair2")
+                sigmas.append(restore_prim(sess, suite, "sigma", s2["sigma"], "repair part2 -> part3 (stored sigma)"))
             d = sess.call("repair3 %s sigmas=%s id=%s pkp=%s" % (suite, ",".join(sigmas), lost, pkp), EXACT, "repair3")
             for fmt in fmts:
                 resumed(sess, suite, "public key package -> repair part3", d, "repair3", {"pkp": ("pubkeypackage", "v=" + pkp)},
@@ -191,6 +203,11 @@ def special_states(sess, suite, fmts):
             for fmt in fmts:
                 resumed(sess, suite, "edge-valued nonces + key package -> sign", d, "sign",
                         {"nonces": ("nonces", "v=" + nn), "kp": ("keypackage", "v=" + kp2)}, "msg=%s comms=%s" % (msg, comms), fmt, [])
+    # a re-randomized signer stores the randomizer it was sent (zero included: the deprecated explicit-randomizer API allows it)
+    for a in [0] + specials[:3]:
+        restore_prim(sess, suite, "randomizer", fld.enc(a), "stored randomizer")
+        restore_prim(sess, suite, "sigma", fld.enc(a), "stored sigma (edge value)")
+        restore_prim(sess, suite, "delta", fld.enc(a), "stored delta (edge value)")
     # key-generation secret packages with edge-valued polynomials / shares
     run = Dkg(sess, suite, 3, 2, ids).part1()
     if run.ok:
